@@ -82,8 +82,65 @@ fn check(i: u64) -> Option<(String, String)> {
     match r { Ok(Ok(())) => None, Ok(Err(e)) => Some(e), Err(p) => Some((format!("panic:{}", panic_site(&p)), format!("{tag}: {p}"))) }
 }
 
+// ---- several externals, bound one after the other, in every order and bracketing
+/// (name, program, externals used: (label, site addresses), labels defined)
+fn multi_files() -> Vec<(&'static str, AProg, Vec<(&'static str, Vec<u16>)>, Vec<(&'static str, u16)>)> {
+    let ext = |l: &str| st(Nuc::External(l.to_string()));
+    let fl = |l: &str| st(Nuc::Fill(FillOp::Lab(l.to_string())));
+    let def = |l: &str, at: u16| block(at, vec![lst(l, Nuc::Fill(FillOp::Num(0xD0D0))), st(Nuc::Halt)]);
+    vec![
+        ("user of P,Q,P", { let mut p = vec![ext("P"), ext("Q")]; p.extend(block(0x5000, vec![fl("P"), fl("Q"), fl("P")])); p }, vec![("P", vec![0x5000, 0x5002]), ("Q", vec![0x5001])], vec![]),
+        ("user of P,Q,R,q", { let mut p = block(0x5100, vec![fl("P"), fl("Q"), fl("R"), fl("q")]); p.insert(1, ext("R")); p.push(ext("Q")); p.insert(0, ext("P")); p }, vec![("P", vec![0x5100]), ("Q", vec![0x5101, 0x5103]), ("R", vec![0x5102])], vec![]),
+        ("definer of P", def("P", 0x4000), vec![], vec![("P", 0x4000)]),
+        ("definer of Q", def("Q", 0x4100), vec![], vec![("Q", 0x4100)]),
+        ("definer of R", def("R", 0x4200), vec![], vec![("R", 0x4200)]),
+        ("definer of P and Q", block(0x4300, vec![lst("P", Nuc::Halt), lst("Q", Nuc::Halt)]), vec![], vec![("P", 0x4300), ("Q", 0x4301)]),
+        ("definer of R using P", { let mut p = vec![ext("P")]; p.extend(block(0x4400, vec![lst("R", Nuc::Fill(FillOp::Lab("P".into())))])); p }, vec![("P", vec![0x4400])], vec![("R", 0x4400)]),
+    ]
+}
+fn multi_objs() -> &'static Vec<Vec<ObjectFile>> {
+    static O: std::sync::OnceLock<Vec<Vec<ObjectFile>>> = std::sync::OnceLock::new();
+    O.get_or_init(|| multi_files().iter().map(|f| (0..2).map(|d| assemble_prog(&f.1, d == 1 || !f.3.is_empty(), &Style::plain()).expect("multi family assembles").0).collect()).collect())
+}
+/// decodes the k-th ordered selection of `len` distinct files out of 7
+fn selection(mut k: u64, len: usize) -> Option<Vec<usize>> { let mut v = vec![]; for _ in 0..len { v.push((k % 7) as usize); k /= 7; } let mut s = v.clone(); s.sort(); s.dedup(); if s.len() == len { Some(v) } else { None } }
+fn check_multi(k: u64, len: usize, right: bool, user_debug: bool) -> Option<(String, String)> {
+    let sel = selection(k, len)?;
+    let files = multi_files(); let objs = multi_objs();
+    let tag = format!("{} of {:?} (users assembled {} debug symbols)", if right { "right fold" } else { "left fold" }, sel.iter().map(|i| files[*i].0).collect::<Vec<_>>(), if user_debug { "with" } else { "without" });
+    let r = catch(|| -> Result<(), (String, String)> {
+        let order: Vec<usize> = if right { sel.iter().rev().copied().collect() } else { sel.clone() };
+        let mut acc: Option<ObjectFile> = None; let mut present: Vec<usize> = vec![];
+        for i in order {
+            let o = objs[i][user_debug as usize].clone();
+            let dup = present.iter().any(|j| files[*j].3.iter().any(|d| files[i].3.iter().any(|e| e.0 == d.0)));
+            present.push(i);
+            let linked = match acc.take() { None => o, Some(a) => {
+                let r = if right { ObjectFile::link(o, a) } else { ObjectFile::link(a, o) };
+                match r { Ok(l) => l, Err(e) => { if dup { return Ok(()); } return Err(("multi:link-fails".into(), format!("{tag}: linking in {} failed with {:?}", files[i].0, e.kind))); } }
+            } };
+            if dup { return Err(("multi:duplicate-definition-accepted".into(), format!("{tag}: two files define the same label and the link succeeded"))); }
+            let defs: std::collections::BTreeMap<&str, u16> = present.iter().flat_map(|j| files[*j].3.iter().copied()).collect();
+            let needs: Vec<(&str, Vec<u16>)> = present.iter().flat_map(|j| files[*j].2.iter().cloned()).collect();
+            let missing: Vec<&str> = needs.iter().filter(|n| !defs.contains_key(n.0)).map(|n| n.0).collect();
+            let mut sim = new_sim();
+            match sim.load_obj_file(&linked) {
+                Err(SimErr::UnresolvedExternal(l)) => { if !missing.iter().any(|m| m.eq_ignore_ascii_case(&l)) { return Err(("multi:wrong-unresolved-label".into(), format!("{tag}: after {} files load reports unresolved {l:?}; labels still undefined: {missing:?}", present.len()))); } }
+                Err(e) => return Err(("multi:load-error".into(), format!("{tag}: load failed with {e:?}"))),
+                Ok(()) => {
+                    if !missing.is_empty() { return Err(("multi:load-succeeds-with-unresolved".into(), format!("{tag}: after {} files the load succeeded although {missing:?} are not defined anywhere", present.len()))); }
+                    for (l, sites) in &needs { for a in sites { if sim.mem[*a].get() != defs[l] { return Err(("multi:silently-unresolved".into(), format!("{tag}: after {} files the load succeeds, but mem[x{a:04X}] (.fill {l}) = x{:04X}, {l} is at x{:04X}", present.len(), sim.mem[*a].get(), defs[l]))); } } }
+                }
+            }
+            acc = Some(linked);
+        }
+        Ok(())
+    });
+    match r { Ok(Ok(())) => None, Ok(Err(e)) => Some(e), Err(p) => Some((format!("panic:{}", panic_site(&p)), format!("{tag}: {p}"))) }
+}
+
 pub fn run(ctx: &Ctx) -> Report {
-    let mut rep = Report::new(".external X placed {before the block, inside before the use, inside after the use, after the block, between two blocks (use before / after)} x {1 use, 2 uses, 2 uses in different letter case} x user assembled with/without debug symbols x 3 origins x 3 definer addresses x definer with/without debug symbols x label name {ASCII mixed case, containing a non-ASCII letter}; direct load must fail with UnresolvedExternal; after linking with a definer that carries its label table, in either order, every .fill word must hold X's address and the load must succeed; after linking with a definer assembled without debug symbols (no label table, nothing to resolve against) the load must still fail with UnresolvedExternal rather than run with 0. non-trivial = every case (each has an unresolved external)");
+    let mut rep = Report::new(".external X placed {before the block, inside before the use, inside after the use, after the block, between two blocks (use before / after)} x {1 use, 2 uses, 2 uses in different letter case} x user assembled with/without debug symbols x 3 origins x 3 definer addresses x definer with/without debug symbols x label name {ASCII mixed case, containing a non-ASCII letter}; direct load must fail with UnresolvedExternal; after linking with a definer that carries its label table, in either order, every .fill word must hold X's address and the load must succeed; after linking with a definer assembled without debug symbols (no label table, nothing to resolve against) the load must still fail with UnresolvedExternal rather than run with 0. Chains: every ordered selection of 2-3 (thorough 4) of 7 files (two users of 2 and 3 distinct externals with repeated and differently-cased uses, definers of P / Q / R / P+Q, a definer of R that itself uses P), folded from the left and from the right, users with and without debug symbols; after every link step: if some used label is still undefined the load must fail naming one of them, otherwise it must succeed with every .fill site holding its label's address; links fail only on duplicate definitions. non-trivial = every case (each has an unresolved external)");
     let n = PLACEMENTS * USES * 2 * 3 * 3 * 2 * 2;
     let r = sweep(ctx, n, 4, |i, acc| {
         acc.evals += 1; acc.transitions += 6; acc.nontrivial += 1;
@@ -92,7 +149,24 @@ pub fn run(ctx: &Ctx) -> Report {
         if let Some((sig, d)) = check(i) { acc.violation(sig, i.to_string(), d); }
     });
     rep.absorb(r);
+    for len in 2..=ctx.pick(3usize, 4usize) {
+        let m = 7u64.pow(len as u32);
+        let r = sweep(ctx, m * 4, 8, |j, acc| {
+            let (k, right, ud) = (j / 4, j % 2 == 1, j / 2 % 2 == 1);
+            if selection(k, len).is_none() { return; }
+            acc.evals += 1; acc.transitions += len as u64; acc.nontrivial += 1; acc.count("multi_external_chains", 1);
+            if let Some((sig, d)) = check_multi(k, len, right, ud) { acc.violation(sig, format!("m:{k}:{len}:{}:{}", right as u8, ud as u8), d); }
+        });
+        rep.absorb(r);
+    }
+    rep.require(rep.acc.get("multi_external_chains") > 500, "chains with several externals were judged");
     rep.bound("cases", Json::i(n));
     rep
 }
-pub fn replay(case: &str) -> Option<String> { check(case.parse().ok()?).map(|x| format!("[{}] {}", x.0, x.1)) }
+pub fn replay(case: &str) -> Option<String> {
+    if let Some(rest) = case.strip_prefix("m:") {
+        let p: Vec<u64> = rest.split(':').filter_map(|x| x.parse().ok()).collect();
+        return check_multi(*p.first()?, *p.get(1)? as usize, *p.get(2)? == 1, *p.get(3)? == 1).map(|x| format!("[{}] {}", x.0, x.1));
+    }
+    check(case.parse().ok()?).map(|x| format!("[{}] {}", x.0, x.1))
+}
